@@ -167,6 +167,16 @@ def _reader(ctx, F):
                         else "outside the table" if w2 is sp.nan else "between nodes"
                     ctx.check(same(g1, w1) and same(g2, w2), "R1", f"vector lookup at {float(e_):g} keV ({where_}) on the 3-row probe table",
                               f"(f1, f2) = ({_s(g1, 40)}, {_s(g2, 40)}), the table gives ({w1}, {w2})", s_sf, witness=f"energy={float(e_):g} keV")
+            if okv:
+                # the arrays handed out are the caller's: edited in place (NaN -> 0, rescaled) they must not be what the
+                # next identical request returns
+                for it_ in (v1, v2):
+                    it_.items[:] = [sp.Integer(424242)] * len(it_.items)
+                u1, u2 = I.call(sf, [], {"energy": Vec([e_ for e_, _, _ in expect])})
+                oku = isinstance(u1, Vec) and isinstance(u2, Vec) and len(u1) == len(expect) == len(u2) \
+                    and all(same(g1, w1) and same(g2, w2) for (e_, w1, w2), g1, g2 in zip(expect, u1.items, u2.items))
+                ctx.check(oku and u1 is not v1 and u2 is not v2, "R1", "the same vector request again, after the first result was edited in place: the table's values in new arrays",
+                          f"returns ({_s(u1, 60)}, {_s(u2, 60)}): the arrays handed out before are served again", s_sf)
         for e_, w1, w2 in expect:
             rr = raises(lambda: I.call(sf, [], {"energy": e_}))
             if rr is not None:
